@@ -311,3 +311,31 @@ class Sel:
 
     def __repr__(self):
         return "Sel(%r)[%s]" % (self.table, self.index)
+
+
+class AIter:
+    """One-shot iterator over known items (result of reversed()/iter()): not subscriptable."""
+
+    def __init__(self, items):
+        self.items = items  # list or RepList
+
+    def __repr__(self):
+        return "AIter(%r)" % (self.items,)
+
+
+class RepList:
+    """head + period * count + tail, count a linear form (symbolic number of octaves)."""
+
+    def __init__(self, head, period, count, tail):
+        self.head, self.period, self.count, self.tail = list(head), list(period), Lin.of(count), list(tail)
+
+    def reversed(self):
+        return RepList(list(reversed(self.tail)), list(reversed(self.period)), self.count, list(reversed(self.head)))
+
+    def __repr__(self):
+        return "RepList(%r + %r*%s + %r)" % (self.head, self.period, self.count, self.tail)
+
+
+class ASuper:
+    def __init__(self, ci, obj):
+        self.ci, self.obj = ci, obj
